@@ -291,6 +291,22 @@ def entries(pym, seed, thorough=False):
         add('StaticCondensation', dict(n=n2, nmain=nm),
             lambda si, so, main=main, rest=rest: pym.StaticCondensation(si, so, main=main, free=rest), [K],
             dirs=lambda r: [kdirs(r)])
+        # StaticCondensation on dense real symmetric and on complex symmetric matrices (dynamic stiffness), dense and sparse (F33)
+        Msym = rng.standard_normal((n2, n2))
+        Kc = (M @ M.T + n2 * np.eye(n2)) + 0.4j * (Msym + Msym.T)
+
+        def csdirs(r, cplx=True, sparse_=False):
+            D = r.standard_normal((n2, n2))
+            D = D + D.T
+            if cplx:
+                E = r.standard_normal((n2, n2))
+                D = D + 1j * (E + E.T)
+            return [sps.csc_matrix(D) if sparse_ else D]
+        for label, Kin, cplx, sp_ in (('dense real symmetric', (M @ M.T + n2 * np.eye(n2)), False, False),
+                                      ('dense complex symmetric', Kc, True, False), ('sparse complex symmetric', sps.csc_matrix(Kc), True, True)):
+            add('StaticCondensation', dict(n=n2, nmain=nm, kind=label),
+                lambda si, so, main=main, rest=rest: pym.StaticCondensation(si, so, main=main, free=rest), [Kin],
+                dirs=lambda r, cplx=cplx, sp_=sp_: csdirs(r, cplx, sp_))
         # EigenSolve (dense): well separated spectra
         ne_ = int(rng.integers(2, 5))
         Qo, _ = np.linalg.qr(rng.standard_normal((ne_, ne_)))
